@@ -206,6 +206,14 @@ def isOpt : Shape → Bool
   | .opt _ => true
   | _ => false
 
+/-- apply `f` to a successful result -/
+def mapOk {α β : Type} (f : α → β) : R α → R β
+  | .ok a => .ok (f a)
+  | .error e => .error e
+
+@[simp] theorem mapOk_ok {α β : Type} (f : α → β) (a : α) : mapOk f (.ok a : R α) = .ok (f a) := rfl
+@[simp] theorem mapOk_error {α β : Type} (f : α → β) (e : Err) : mapOk f (.error e : R α) = .error e := rfl
+
 /-- `Vec::mapM` written out (so that proofs can unfold it) -/
 def mapMR {α β : Type} (f : α → R β) : List α → R (List β)
   | [] => .ok []
@@ -216,6 +224,19 @@ def mapMR {α β : Type} (f : α → R β) : List α → R (List β)
       match mapMR f xs with
       | .error e => .error e
       | .ok ys => .ok (y :: ys)
+
+def pairR {α β : Type} : R α → R β → R (α × β)
+  | .ok a, .ok b => .ok (a, b)
+  | .error e, _ => .error e
+  | .ok _, .error e => .error e
+
+def consR {α : Type} : R α → R (List α) → R (List α)
+  | .ok a, .ok l => .ok (a :: l)
+  | .error e, _ => .error e
+  | .ok _, .error e => .error e
+
+@[simp] theorem consR_ok {α : Type} (a : α) (l : List α) : consR (.ok a : R α) (.ok l) = .ok (a :: l) := rfl
+@[simp] theorem pairR_ok {α β : Type} (a : α) (b : β) : pairR (.ok a : R α) (.ok b : R β) = .ok (a, b) := rfl
 
 mutual
 def de : Shape → V → R D
@@ -276,69 +297,51 @@ def de : Shape → V → R D
     | .none => .ok .none                                                   -- deserialize_option
     | .undefined => .ok .none
     | v =>
-      match de s v with
-      | .ok d => .ok (.some d)
-      | .error e => .error e
+      mapOk D.some (de s v)
   | .nstruct s, v => de s v                                               -- visit_newtype_struct(self)
   | .seq s, v =>
     match v with
     | .seq _ xs =>
-      match mapMR (de s) xs with
-      | .ok ds => .ok (.list ds)
-      | .error e => .error e
+      mapOk D.list (mapMR (de s) xs)
     | .obj _ => .error .unmodelled
     | _ => .error .err
   | .map k w, v =>
     match v with
     | .map kvs =>
-      match mapMR (fun p => match de k p.1 with
-                            | .error e => .error e
-                            | .ok a => match de w p.2 with
-                                       | .error e => .error e
-                                       | .ok b => .ok (a, b)) kvs with
-      | .ok ds => .ok (.map ds)
-      | .error e => .error e
+      mapOk D.map (mapMR (fun p => pairR (de k p.1) (de w p.2)) kvs)
     | .obj _ => .error .unmodelled
     | _ => .error .err
   | .tup ss, v =>
     match v with
     | .seq _ xs =>
-      match deList ss xs with
-      | .ok ds => .ok (.list ds)
-      | .error e => .error e
+      mapOk D.list (deList ss xs)
     | .obj _ => .error .unmodelled
     | _ => .error .err
   | .tstruct ss, v =>
     match v with
     | .seq _ xs =>
-      match deList ss xs with
-      | .ok ds => .ok (.list ds)
-      | .error e => .error e
+      mapOk D.list (deList ss xs)
     | .obj _ => .error .unmodelled
     | _ => .error .err
   | .struct names ss, v =>
     match v with
     | .map kvs =>
       if allStrKeys kvs then
-        match deFields names ss kvs with
-        | .ok ds => .ok (.list ds)
-        | .error e => .error e
+        mapOk D.list (deFields names ss kvs)
       else .error .unmodelled
     | .seq _ xs =>                                                         -- derived visit_seq
-      match deList ss xs with
-      | .ok ds => .ok (.list ds)
-      | .error e => .error e
+      mapOk D.list (deList ss xs)
     | .obj _ => .error .unmodelled
     | _ => .error .err
   | .enum names vs, v =>
     match v with
     | .str n _ =>                                                          -- (variant, no payload)
       match findName n names with
-      | some i => deVariant vs i Option.none
+      | some i => deVariant vs i i Option.none
       | Option.none => .error .err
     | .map [(.str n _, payload)] =>                                        -- map with a single key
       match findName n names with
-      | some i => deVariant vs i (some payload)
+      | some i => deVariant vs i i (some payload)
       | Option.none => .error .err
     | .map [(.int _ _, _)] => .error .unmodelled                           -- variant index
     | .map _ => .error .err
@@ -350,43 +353,22 @@ elements are not looked at -/
 def deList : List Shape → List V → R (List D)
   | [], _ => .ok []
   | _ :: _, [] => .error .err
-  | s :: ss, x :: xs =>
-    match de s x with
-    | .error e => .error e
-    | .ok d =>
-      match deList ss xs with
-      | .error e => .error e
-      | .ok ds => .ok (d :: ds)
+  | s :: ss, x :: xs => consR (de s x) (deList ss xs)
 /-- derived `visit_map` of structs on a map with string keys: fields by name, unknown keys ignored,
 a missing field is an error unless it is an `Option` -/
 def deFields : List Str → List Shape → List (V × V) → R (List D)
   | n :: ns, s :: ss, kvs =>
     match lookupStr n kvs with
-    | some x =>
-      match de s x with
-      | .error e => .error e
-      | .ok d =>
-        match deFields ns ss kvs with
-        | .error e => .error e
-        | .ok ds => .ok (d :: ds)
+    | some x => consR (de s x) (deFields ns ss kvs)
     | Option.none =>
-      if isOpt s then
-        match deFields ns ss kvs with
-        | .error e => .error e
-        | .ok ds => .ok (.none :: ds)
-      else .error .err
+      if isOpt s then consR (.ok .none) (deFields ns ss kvs) else .error .err
   | _, _, _ => .ok []
-def deVariant : List VShape → Nat → Option V → R D
-  | v :: _, 0, payload =>
-    match deV v payload with
-    | .ok p => .ok (.variant 0 p)
-    | .error e => .error e
-  | _ :: vs, i+1, payload =>
-    match deVariant vs i payload with
-    | .ok (.variant j p) => .ok (.variant (j+1) p)
-    | .ok d => .ok d
-    | .error e => .error e
-  | [], _, _ => .error .err
+/-- the variant chosen by the identifier (`orig` = its index, reported in the result) -/
+def deVariant : List VShape → Nat → Nat → Option V → R D
+  | v :: _, 0, orig, payload =>
+    mapOk (D.variant orig) (deV v payload)
+  | _ :: vs, i+1, orig, payload => deVariant vs i orig payload
+  | [], _, _, _ => .error .err
 /-- `VariantAccess` -/
 def deV : VShape → Option V → R D
   | .unit, payload =>
@@ -402,19 +384,16 @@ def deV : VShape → Option V → R D
     | Option.none => .error .err
   | .tuple ss, payload =>
     match payload with
-    | some (.seq _ xs) => deList ss xs
-                          |> fun r => match r with
-                                      | .ok ds => .ok (.list ds)
-                                      | .error e => .error e
+    | some (.seq _ xs) =>
+      -- `SeqDeserializer::deserialize_any` = visit_seq, then `end()`: left-over elements are an error
+      if ss.length < xs.length then .error .err else mapOk D.list (deList ss xs)
     | some (.obj _) => .error .unmodelled
     | _ => .error .err
   | .struct names ss, payload =>
     match payload with
     | some (.map kvs) =>
       if allStrKeys kvs then
-        match deFields names ss kvs with
-        | .ok ds => .ok (.list ds)
-        | .error e => .error e
+        mapOk D.list (deFields names ss kvs)
       else .error .unmodelled
     | some (.obj _) => .error .unmodelled
     | _ => .error .err
